@@ -123,7 +123,11 @@ class FortranBackend(BaseBackend):
             return f"{m.group(3)}d{m.group(4)}"
         return self._real_literal.sub(_dbl, text)
 
+    # a rational number such as the exponent in `x**(1/3)` is an INTEGER division in Fortran (1/3 = 0)
+    _rational_literal = re.compile(r'(?<![\w.)\]*])(\d+)/(\d+)(?![\w.(\[])')
+
     def _format_assignment(self, lhs: str, rhs: str, indexed: bool) -> str:
+        rhs = self._rational_literal.sub(r'\1.0/\2.0', rhs)
         return super()._format_assignment(lhs, self._double_literals(rhs), indexed)
 
     def create_index_str(self, idx: Union[str, int, tuple], separator: str = ',', apply: bool = True,
